@@ -86,3 +86,25 @@ def ensure_deps():
                         '--find-links', '/opt/veriftools/wheels', '--target', DEPS, 'icontract'],
                        capture_output=True, text=True, timeout=600)
     return r.returncode == 0 and os.path.isdir(os.path.join(DEPS, 'icontract'))
+
+
+import contextlib
+
+
+@contextlib.contextmanager
+def debug_logging():
+    """Run a block with the ampycloud loggers at DEBUG level (records go to a NullHandler): the logging
+    configuration is a dimension of the environment that no property may depend on."""
+    import logging
+    lg = logging.getLogger('ampycloud')
+    old_level, old_disable = lg.level, logging.root.manager.disable
+    h = logging.NullHandler()
+    lg.addHandler(h)
+    lg.setLevel(logging.DEBUG)
+    logging.disable(logging.NOTSET)
+    try:
+        yield
+    finally:
+        lg.removeHandler(h)
+        lg.setLevel(old_level)
+        logging.disable(old_disable)
